@@ -15,12 +15,15 @@ while IFS=$'\t' read -r prop file subst expect note; do
   case "$prop" in \#*) continue;; esac
   echo "$prop $file $note" | grep -qE "$FILTER" || continue
   before=$(md5sum "/repo/$file" | cut -d' ' -f1)
+  # packages that depend on the harmony bls cgo library do not build even unmodified in this sandbox;
+  # for those the compile check is left to gocv's own type check of the package
+  basebuild=0; (cd /repo && go build ./$(dirname "$file")/ 2>/dev/null) || basebuild=1
   perl -0pi -e "$subst" "/repo/$file"
   after=$(md5sum "/repo/$file" | cut -d' ' -f1)
   if [ "$before" = "$after" ]; then
     echo "SELFTEST-BROKEN (substitution did not apply): $prop $file $note"; bad=$((bad+1)); continue
   fi
-  if ! (cd /repo && go build ./$(dirname "$file")/ 2>/dev/null); then
+  if [ $basebuild = 0 ] && ! (cd /repo && go build ./$(dirname "$file")/ 2>/dev/null); then
     echo "SELFTEST-BROKEN (mutant does not compile): $prop $file $note"; bad=$((bad+1))
     git -C /repo checkout -- "$file"; continue
   fi
